@@ -202,6 +202,15 @@ def _schedule_ops(world):
                     env.resource_manager.add_resources(op['res'], world.val(op['amount']))
                 except ValueError:
                     pass
+            elif k == 'hold':
+                # somebody else (the harness) takes resources from the pool ...
+                world.held = getattr(world, 'held', {})
+                world.held[op['res']] = env.resource_manager.reserve_resources({op['res']: world.val(op['amount'])})
+            elif k == 'unhold':
+                # ... and gives them back later
+                r = getattr(world, 'held', {}).pop(op['res'], None)
+                if r is not None:
+                    r.release()
             elif k == 'budget':
                 dev.adjust_part_count(op['n'])
             elif k == 'rewire':
@@ -297,8 +306,11 @@ def run_world(world, monitors):
     for m in world.monitors:
         m.attach()
     horizons = world.spec.get('horizons') or [world.spec.get('horizon', 10 ** 7)]
+    trace = bool(world.spec.get('trace'))
+    if trace:
+        world.trace_recorder = _TraceRecorder.install()
     for h in horizons:
-        system.simulate(world.val(h), print_summary=False)
+        system.simulate(world.val(h), trace=trace, print_summary=False)
         for m in world.monitors:
             m.before_clock_advance()
     for m in world.monitors:
@@ -309,6 +321,34 @@ def run_world(world, monitors):
 VALUE_KEYS = {'cycle', 'delay', 'value', 't', 'amount', 'capacity', 'dur', 'cost', 'needcap', 'interval', 'horizon',
               'addvalue'}
 VALUE_CONTAINERS = {'pools', 'res', 'batches', 'horizons', 'durs', 'needs', 'costs'}
+
+
+class _TraceRecorder:
+    """S5: open() and json in simulation.py's namespace are replaced by recorders (the export target is
+    a file under ~/Downloads: file I/O is the environment)."""
+
+    def __init__(self):
+        self.dumps = []
+
+    @staticmethod
+    def install():
+        import simprocesd.model.simulation as sim
+        rec = _TraceRecorder()
+
+        class _F:
+            def __enter__(self):
+                return self
+
+            def __exit__(self, *a):
+                return False
+
+        class _J:
+            @staticmethod
+            def dump(obj, fp):
+                rec.dumps.append(dict(obj))
+        sim.open = lambda *a, **k: _F()
+        sim.json = _J
+        return rec
 
 
 def params_of(spec):
@@ -919,3 +959,342 @@ def with_ops(spec, ops, maint=False, durs=None):
             if d['k'] == 'proc':
                 d['durs'] = durs
     return spec
+
+
+# =====================================================================================================
+# C16 value accounting, C15 recorded data, C04 recurrence, C11 resources
+# =====================================================================================================
+class ValueMon(Monitor):
+    """C16."""
+
+    def attach(self):
+        w = self.w
+        self.seen = {}       # id(asset) -> number of history entries already checked
+        self.initial = {}
+        self.supplied = {n: 0 for n in w.order if w.kind[n] == 'source'}
+        self.received = {n: 0 for n in w.order if w.kind[n] == 'sink'}
+        self.n_sup = dict.fromkeys(self.supplied, 0)
+        self.n_rec = dict.fromkeys(self.received, 0)
+        self.charged = 0
+        self.n_started = 0
+        for n in w.order:
+            d = w.dev[n]
+            if w.kind[n] == 'proc':
+                add = self._spec(n).get('addvalue')
+                if add is not None:
+                    d.add_finish_processing_callback(lambda p, part, a=w.val(add): self._add(part, a))
+
+    def _spec(self, n):
+        return next(d for d in self.w.spec['devices'] if d['name'] == n)
+
+    def _add(self, part, a):
+        if self.w.probe_depth:
+            return
+        for leaf in leaves(part):
+            leaf.add_value('processing', a)
+        self.ctx.goal('value_added_by_processing')
+
+    def after_event(self, ev):
+        w, ctx = self.w, self.ctx
+        z = ctx.z
+        assets = [w.dev[n] for n in w.order] + list(w.generated)
+        vals = [(a, a.value, a._initial_value, list(a.value_history)) for a in assets]
+        net = w.system.get_net_value_of_assets()
+        with ctx.notrace():
+            now = w.now()
+            total = 0
+            for a, value, init, hist in vals:
+                run_total = z(init)
+                k0 = self.seen.get(id(a), 0)
+                for i, e in enumerate(hist):
+                    ctx.require(len(e) == 4, 'value history entry is not (label, time, delta, total)', a.name)
+                    if i >= k0:
+                        ctx.require(z(e[1]) == now, 'value history entry not stamped with the time of the change', a.name)
+                        ctx.require(z(e[2]) != 0, 'zero value change recorded', a.name)
+                    run_total = run_total + z(e[2])
+                    if i >= k0:
+                        ctx.require(z(e[3]) == run_total, 'value history running total wrong', a.name)
+                self.seen[id(a)] = len(hist)
+                ctx.require(z(value) == run_total, 'asset value != starting value + sum of its value history', a.name)
+                if a in w.system._assets:
+                    total = total + z(value)
+            ctx.require(z(net) == total, 'net value of the system != sum over its registered assets')
+            data = w.env.simulation_data
+            for n in self.supplied:
+                src = w.dev[n]
+                recs = data.get('supplied_new_part', {}).get(n, [])
+                for rec in recs[self.n_sup[n]:]:
+                    part = next(p for p in w.generated if p.id == rec[1])
+                    # value of the part when it left the source = its value history up to that instant
+                    v = z(part._initial_value)
+                    for e in part.value_history:
+                        v = v + ctx.If(z(e[1]) < z(rec[0]), z(e[2]), 0)
+                    self.supplied[n] = self.supplied[n] + v
+                self.n_sup[n] = len(recs)
+                ctx.require(z(src.value) == 0 - self.supplied[n], 'source value != -(summed value of supplied parts)', n)
+                ctx.require(z(src.cost_of_produced_parts) == self.supplied[n], 'cost_of_produced_parts != summed value of supplied parts', n)
+            for n in self.received:
+                snk = w.dev[n]
+                recs = data.get('received_part', {}).get(n, [])
+                for rec in recs[self.n_rec[n]:]:
+                    self.received[n] = self.received[n] + z(rec[3])
+                    ctx.goal_if('valuable_part_received', z(rec[3]) != 0)
+                self.n_rec[n] = len(recs)
+                ctx.require(z(snk.value) == self.received[n], 'sink value != summed value (at receipt) of received parts', n)
+                ctx.require(z(snk.value_of_received_parts) == self.received[n], 'value_of_received_parts wrong', n)
+            if w.maintainer is not None:
+                starts = data.get('start_work_order', {}).get(w.maintainer.name, [])
+                for rec in starts[self.n_started:]:
+                    dev = w.dev[rec[1]]
+                    self.charged = self.charged + z(dev.wo_costs.get(rec[2], 0) if isinstance(dev, WProc) else 0)
+                    ctx.goal('work_order_cost_charged')
+                self.n_started = len(starts)
+                ctx.require(z(w.maintainer.value) == z(w.maintainer._initial_value) - self.charged,
+                            'maintainer value != starting value - costs of started orders')
+            for n in w.order:
+                d = w.dev[n]
+                for slot in (getattr(d, '_part', None), getattr(d, '_output', None)):
+                    if isinstance(slot, Batch):
+                        s = 0
+                        for p in slot.parts:
+                            s = s + z(p.value)
+                        ctx.require(ctx.real(lambda: slot.value) == s, 'batch value != sum of its parts', n)
+                        ctx.goal('batch_valued')
+
+
+class DataMon(Monitor):
+    """C15."""
+
+    def attach(self):
+        w = self.w
+        self.recv = {}        # device -> acceptances observed by the receive callback
+        self.fin = {}
+        self.fails = {}
+        self.dispatched = []
+        for n in w.order:
+            d, k = w.dev[n], w.kind[n]
+            if k in ('handler', 'proc', 'buffer', 'sink', 'batcher'):
+                self.recv[n] = 0
+                d.add_receive_part_callback(self._received)
+            if k == 'proc':
+                self.fin[n] = 0
+                d.add_finish_processing_callback(self._finished)
+
+    def _received(self, dev, part):
+        w, ctx = self.w, self.ctx
+        if w.probe_depth:
+            return
+        self.recv[dev.name] += 1
+        recs = w.env.simulation_data.get('received_part', {}).get(dev.name, [])
+        with ctx.notrace():
+            ctx.require(len(recs) == self.recv[dev.name], 'no (or more than one) received_part record for an acceptance', dev.name)
+            r = recs[-1]
+        v = part.value
+        with ctx.notrace():
+            ctx.require(ctx.z(r[0]) == w.now() and r[1] == part.id and ctx.z(r[2]) == ctx.z(part.quality) and ctx.z(r[3]) == ctx.z(v),
+                        'received_part record != (now, part id, quality, value) at that moment', dev.name)
+
+    def _finished(self, dev, part):
+        if self.w.probe_depth:
+            return
+        self.fin[dev.name] += 1
+
+    def after_event(self, ev):
+        w, ctx = self.w, self.ctx
+        z = ctx.z
+        data = w.env.simulation_data
+        self.dispatched.append((z(w.env.now), ev.asset_id, getattr(ev.action, '__name__', '?'), 'cancelled' if ev.cancelled else ''))
+        out_vals = {n: (w.dev[n]._output.value if w.dev[n]._output is not None else None) for n in self.fin}
+        rm = w.env.resource_manager
+        pool = {r: (rm.get_resource_usage(r), rm.get_resource_capacity(r)) for r in data.get('resource_update', {})}
+        with ctx.notrace():
+            now = w.now()
+            for n in w.order:
+                d, k = w.dev[n], w.kind[n]
+                if k == 'buffer':
+                    recs = data.get('level', {}).get(n, [])
+                    if recs:
+                        ctx.require(z(recs[-1][1]) == d.level(), 'last recorded buffer level != buffer level', n)
+                        ctx.goal('level_recorded')
+                    else:
+                        ctx.require(d.level() == 0, 'buffer level changed without a level record', n)
+                if n in self.recv:
+                    ctx.require(len(data.get('received_part', {}).get(n, [])) == self.recv[n], 'received_part records != acceptances', n)
+                if k == 'proc':
+                    recs = data.get('produced_part', {}).get(n, [])
+                    ctx.require(len(recs) == self.fin[n], 'produced_part records != finished parts', n)
+                    fr = data.get('device_failure', {}).get(n, [])
+                    if getattr(ev.action, '__name__', '') == '_fail' and getattr(ev.action, '__self__', None) is d and not ev.cancelled:
+                        self.fails[n] = self.fails.get(n, 0) + 1
+                        ctx.require(len(fr) == self.fails[n] and z(fr[-1][0]) == now, 'no failure record stamped now for a failure', n)
+                        ctx.goal('failure_recorded')
+                    ctx.require(len(fr) == self.fails.get(n, 0), 'device_failure records != failures', n)
+                    if recs and d._output is not None and recs[-1][1] == d._output.id and z(recs[-1][0]) == now:
+                        ctx.require(z(recs[-1][3]) == z(out_vals[n]) and z(recs[-1][2]) == z(d._output.quality),
+                                    'produced_part record != (part id, quality, value) after processing', n)
+                        ctx.goal('produced_recorded')
+                if k == 'source':
+                    recs = data.get('supplied_new_part', {}).get(n, [])
+                    ctx.require(len(recs) == d.produced_parts, 'supplied_new_part records != parts produced by the source', n)
+                    if recs:
+                        ctx.goal('supplied_recorded')
+                if k == 'sink':
+                    recs = data.get('received_part', {}).get(n, [])
+                    nl = 0
+                    for i, r in enumerate(recs):
+                        nl += len(leaves(d.collected_parts[i])) if i < len(d.collected_parts) else 1
+                    ctx.require(d.received_parts_count == nl, 'sink counter != parts in its received records', n)
+            for r, (use, cap) in pool.items():
+                last = data['resource_update'][r][-1]
+                ctx.require(z(last[1]) == z(use) and z(last[2]) == z(cap), 'last resource_update record != pool', r)
+                ctx.goal('resource_recorded')
+            if w.maintainer is not None:
+                m = w.maintainer.name
+                nq, ns, nf = (len(data.get(l, {}).get(m, [])) for l in ('enter_queue', 'start_work_order', 'finish_work_order'))
+                ctx.require(ns <= nq and nf <= ns, 'work-order records out of step (start without enter, finish without start)')
+                ctx.require(nq == getattr(self, 'accepted', 0), 'enter_queue records != accepted work orders')
+                ctx.require(ns - nf == len(w.maintainer._active_requests) - len([e for e in w.env._events
+                            if getattr(getattr(e.action, 'func', None), '__name__', '') == '_start_work_order']),
+                            'start/finish records out of step with orders in progress')
+
+    def on_work_order_request(self, dev, tag, ok):
+        if ok:
+            self.accepted = getattr(self, 'accepted', 0) + 1
+            self.ctx.goal('work_order_recorded')
+
+    def at_end(self):
+        w, ctx = self.w, self.ctx
+        rec = getattr(w, 'trace_recorder', None)
+        if rec is None:
+            return
+        with ctx.notrace():
+            ctx.require(len(rec.dumps) == len(w.spec.get('horizons') or [1]), 'trace not exported exactly once per run')
+            trace = rec.dumps[-1]
+            ctx.require(sorted(trace) == list(range(len(self.dispatched))), 'trace does not list exactly the executed events')
+            for i, (t, aid, name, status) in enumerate(self.dispatched):
+                e = trace[i]
+                ctx.require(ctx.z(e['time']) == t and e['asset_id'] == aid and e['action'] == name,
+                            'trace entry != executed event (time, asset, action) in execution order', f'entry {i}')
+            ctx.goal('trace_checked')
+
+
+class Recurrence(Monitor):
+    """C04: received_part instants == blocking-after-service recurrence (z3 max-terms)."""
+
+    def at_end(self):
+        w, ctx = self.w, self.ctx
+        z = ctx.z
+        with ctx.notrace():
+            st = [d for d in w.spec['devices'] if d['k'] != 'maintainer']
+            J = len(st) - 2
+            n = st[0]['parts']
+            c, K = [], []
+            for d in st:
+                if d['k'] == 'buffer':
+                    c.append(w.zval(d.get('delay', 0)))
+                    K.append(d.get('cap') or 10 ** 9)
+                else:
+                    c.append(w.zval(d.get('cycle', 0)))
+                    K.append(1)
+            NEG = None
+            D = {}
+
+            def get(j, k):
+                return D.get((j, k), NEG) if k >= 1 else NEG
+
+            def mx(*xs):
+                xs = [x for x in xs if x is not None]
+                return ctx.Max(*xs) if len(xs) > 1 else xs[0]
+            # the recurrence refers to later stations of earlier parts: fill by part, stations back to front is not
+            # possible (needs D(j-1,k)); iterate to a fixed point over (k, j) in an order that respects dependencies:
+            # D(j,k) depends on D(j-1,k), D(j,k-1), D(j+1,k-K_{j+1}) -> parts in increasing k, stations in increasing j.
+            for k in range(1, n + 1):
+                for j in range(0, J + 2):
+                    if j == 0:
+                        arr = get(0, k - 1) if k > 1 else 0
+                    else:
+                        arr = get(j - 1, k)
+                    if j == J + 1:
+                        D[(j, k)] = arr + c[j]              # the sink frees its slot c after receiving
+                    else:
+                        D[(j, k)] = mx(arr + c[j], get(j, k - 1), get(j + 1, k - K[j + 1]))
+            data = w.env.simulation_data.get('received_part', {})
+            for j in range(1, J + 2):
+                recs = data.get(st[j]['name'], [])
+                ctx.require(len(recs) == n, 'station did not receive every part within the horizon', st[j]['name'])
+                for k in range(1, n + 1):
+                    ctx.require(z(recs[k - 1][0]) == D[(j - 1, k)], 'entry time differs from the blocking-after-service recurrence',
+                                f'part {k} entering {st[j]["name"]}')
+            ctx.goal('recurrence_matched')
+            for j in range(0, J + 1):
+                for k in range(2, n + 1):
+                    ctx.goal_if('blocked_by_downstream', ctx.And(D[(j, k)] > get(j - 1, k) + c[j] if j else D[(j, k)] > get(0, k - 1) + c[0],
+                                                                 D[(j, k)] > get(j, k - 1)))
+
+
+class ResourceMon(Monitor):
+    """C11."""
+
+    def attach(self):
+        w = self.w
+        self.decl = {}
+        for d in w.spec['devices']:
+            if d['k'] == 'proc' and d.get('res'):
+                self.decl[d['name']] = {r: w.zval(a) for r, a in d['res'].items()}
+                w.dev[d['name']].add_receive_part_callback(self._received)
+        self.failed_now = set()
+
+    def _received(self, dev, part):
+        if self.w.probe_depth:
+            return
+        self._holds_exactly(dev, 'accepted a part without holding exactly its declared resources')
+
+    def _holds_exactly(self, dev, label):
+        ctx = self.ctx
+        r = dev._reserved_resources
+        ctx.require(r is not None, label, dev.name)
+        held = ctx.real(lambda: r.reserved_resources)
+        with ctx.notrace():
+            want = {k: v for k, v in self.decl[dev.name].items()}
+            conds = []
+            for k in set(held) | set(want):
+                conds.append(held.get(k, 0) == want.get(k, 0))
+            ctx.require(ctx.And(*conds), label, dev.name)
+
+    def after_event(self, ev):
+        w, ctx = self.w, self.ctx
+        rm = w.env.resource_manager
+        usage = {}
+        for n, decl in self.decl.items():
+            d = w.dev[n]
+            if d._part is not None:
+                self._holds_exactly(d, 'part in process without holding exactly the declared resources')
+                ctx.goal('processing_with_resources')
+                if not d.is_operational():
+                    ctx.goal('resources_kept_through_maintenance')
+            if getattr(ev.action, '__name__', '') == '_fail' and getattr(ev.action, '__self__', None) is d and not ev.cancelled:
+                ctx.require(d._reserved_resources is None, 'failed processor still holds resources', n)
+                ctx.goal('released_on_failure')
+            if d._reserved_resources is not None:
+                for r, a in decl.items():
+                    usage[r] = usage.get(r, 0) + a
+        for r, res in getattr(w, 'held', {}).items():
+            if res is not None:
+                for k, v in ctx.real(lambda: res.reserved_resources).items():
+                    usage[k] = usage.get(k, 0) + v
+        for r in set(usage) | set(w.spec.get('pools', {})):
+            use = ctx.real(lambda: rm.get_resource_usage(r))
+            with ctx.notrace():
+                use = 0 if (type(use) is float and use == 0.0) else use
+                ctx.require(use == usage.get(r, 0), 'pool usage != sum of the requirements of the processors holding reservations', r)
+
+    def before_clock_advance(self):
+        w, ctx = self.w, self.ctx
+        for n in self.decl:
+            d = w.dev[n]
+            if d.is_operational() and d._part is None:
+                ctx.require(d._reserved_resources is None, 'idle operational processor holds resources while time advances', n)
+                ctx.goal('idle_processor_released')
+
+
+MONITORS.update({'value': ValueMon, 'data': DataMon, 'recurrence': Recurrence, 'resource': ResourceMon})
